@@ -13,8 +13,19 @@ pub const S2: char = '\u{e001}';
 /// compositions with script-specific combining marks, singleton compositions, an expanding ligature, two
 /// function words, character classes), "xc" (compositions ONLY: no reduction, no function word - composed
 /// letters stay accented) and "xr" (reductions ONLY: nothing is composed, a free-standing mark stays a mark).
-pub const LANGS: [&str; 10] = ["none", "de", "en", "es", "fr", "pt", "ru", "xk", "xc", "xr"];
-pub const NL: u64 = 10;
+/// And "xd": a BUNDLED language extended after construction through the same public calls (German plus an
+/// acute-accent composition and its folding), as an application does that needs a letter the shipped tables lack.
+pub const LANGS: [&str; 11] = ["none", "de", "en", "es", "fr", "pt", "ru", "xk", "xc", "xr", "xd"];
+pub const NL: u64 = 11;
+
+/// The bundled language a user-extended language starts from (its function words, stemmer, vocabulary).
+pub fn base_lang(lang: &str) -> &str {
+    if lang == "xd" {
+        "de"
+    } else {
+        lang
+    }
+}
 
 #[derive(Clone)]
 pub struct Rng(pub u64);
@@ -89,6 +100,14 @@ pub fn mk_lang(name: &str) -> Lang {
         "ru" => lang_russian(),
         "xk" => lang_custom(),
         "xc" => lang_compose_only(),
+        "xd" => {
+            let mut lang = lang_german();
+            lang.add_unicode_composition("e\u{301}", "é");
+            lang.add_unicode_composition("E\u{301}", "É");
+            lang.add_unicode_reduction("é", "e");
+            lang.add_unicode_reduction("É", "E");
+            lang
+        }
         "xr" => lang_reduce_only(),
         _ => Lang::new(),
     }
@@ -108,7 +127,9 @@ pub const XK_COMPOSE: [(&str, &str); 8] = [
 ];
 pub const XK_REDUCE: [(&str, &str); 7] = [("が", "か"), ("ぎ", "き"), ("ば", "は"), ("ぱ", "は"), ("ヴ", "ウ"), ("\u{fb2a}", "ש"), ("ゟ", "より")];
 
-pub const XC_COMPOSE: [(&str, &str); 10] = [
+pub const XC_COMPOSE: [(&str, &str); 11] = [
+    // a composition to nothing: soft hyphens are dropped
+    ("\u{ad}", ""),
     // a composition of two separators into one (typographic dash): texts without any word change their length too
     ("--", "\u{2014}"),
     ("a\u{308}", "ä"),
@@ -137,10 +158,19 @@ pub const XR_REDUCE: [(&str, &str); 11] = [
     ("\u{2026}", "..."),
 ];
 
+/// Words the compositions-only language tags with a part of speech that is NOT a function-word kind (the
+/// property texts name article, preposition, conjunction and particle): they stay ordinary content words.
+pub const XC_TAGGED_CONTENT: [(&str, u8); 6] = [("someone", 0), ("hurrah", 1), ("garden", 2), ("running", 3), ("yellow", 4), ("quickly", 5)];
+
 fn lang_compose_only() -> Lang {
+    use lucid_suggest_core::lang::PartOfSpeech;
     let mut lang = Lang::new();
     for (from, to) in XC_COMPOSE.iter() {
         lang.add_unicode_composition(from, to);
+    }
+    for (w, k) in XC_TAGGED_CONTENT.iter() {
+        let pos = [PartOfSpeech::Pronoun, PartOfSpeech::Intejection, PartOfSpeech::Noun, PartOfSpeech::Verb, PartOfSpeech::Adjective, PartOfSpeech::Adverb][*k as usize];
+        lang.add_pos(w, pos);
     }
     lang
 }
